@@ -6,9 +6,10 @@
    DCEP rule, RQ.v for the receiver-side clauses (cited from RQSafety.v).
    A history is a list of pr_ev: PrSend (a chunk leaves the pending queue), PrMark (RACK / PTO marks one chunk),
    PrT3 (T3 expiry: C2-C3 and markAllToRetrasmit), PrRtx (one marked chunk retransmitted by a gather), PrFrtx
-   (one chunk fast-retransmitted), PrSack, PrGather.  pr_step refuses what the code cannot do (marking or
-   fast-retransmitting an acked / abandoned chunk, retransmitting an unmarked one), so "every history" = every
-   list on which pr_run succeeds; which chunks are marked or retransmitted is otherwise arbitrary (oracle).
+   (one chunk fast-retransmitted), PrUnmark (a gather clears the mark of a chunk whose message was abandoned in the
+   meantime, fix 3b069d1), PrSack, PrGather.  pr_step refuses what the code cannot do (marking or fast-retransmitting
+   an acked / abandoned chunk, retransmitting an unmarked or abandoned one), so "every history" = every list on
+   which pr_run succeeds; which chunks are marked or retransmitted is otherwise arbitrary (oracle).
    Only statements closed by [exact] + Print Assumptions here. *)
 From Coq Require Import ZArith Bool List.
 From Sctp Require Import Gen SnaProofs RQ RQProofs RQSafety StreamW PR PRProofs.
@@ -21,13 +22,14 @@ Open Scope Z_scope.
    Along every history in which loss recovery (RACK / PTO / T3 marking, fast retransmission) selects chunks only
    at moments when no message of the stream is partly in flight (pr_run_whole: its later fragments are not still
    waiting in the pending queue - finding D21 is what happens otherwise), every chunk of the stream that is not
-   a DCEP chunk has been put on the wire between 1 and N + 1 times. *)
+   a DCEP chunk has been put on the wire between 1 and max(N, 1) <= N + 1 times (the code abandons at nSent >= N,
+   so N = 0 and N = 1 both mean "no retransmission"). *)
 Theorem c06_nsent_bound : forall sid N evs s0 s outs,
   0 <= N < 4294967295 ->
   pr_rexmit_stream s0 sid N -> pr_ent s0 -> pr_nb_inv sid N s0 ->
   pr_run_whole sid s0 evs ->
   pr_run s0 evs = Some (s, outs) ->
-  forall c, In c (pr_infl s) -> pr_sid c = sid -> pr_dcep c = false -> 1 <= pr_nsent c <= N + 1.
+  forall c, In c (pr_infl s) -> pr_sid c = sid -> pr_dcep c = false -> 1 <= pr_nsent c <= Z.max N 1.
 Proof. exact pr_nsent_bound_thm. Qed.
 Print Assumptions c06_nsent_bound.
 
@@ -38,19 +40,18 @@ Example c06_nsent_bound_init : forall tsn pol N sid,
   pr_rexmit_stream s0 sid N /\ pr_ent s0 /\ pr_nb_inv sid N s0.
 Proof. intros. unfold pr_rexmit_stream, pr_ent, pr_nb_inv. cbn. repeat split; auto. Qed.
 
-(* the bound N + 1 is attained: limit 2, a chunk marked for retransmission (T3 / RACK) is first fast-retransmitted
-   (second transmission, the limit is reached and the message abandoned) and then retransmitted once more
-   because its retransmit flag was still set: three transmissions; all side conditions hold *)
+(* the bound is attained: limit 2, T3 marks the chunk, the gather retransmits it (second transmission: the limit is
+   reached and the message abandoned); the next T3 marks nothing *)
 Example c06_nsent_bound_is_tight :
   let s0 := pr_init 100 [(5, (c_ReliabilityTypeRexmit, 2))] true false in
   let c := mkPrChunk 100 5 0 0 false true true 1 false 0 false false 0 in
-  let evs := [PrSend c 0; PrMark 100; PrFrtx 100 1000000000; PrRtx 100 1200000000] in
+  let evs := [PrSend c 0; PrT3; PrRtx 100 1000000000; PrT3] in
   pr_run_whole 5 s0 evs /\
   match pr_run s0 evs with
-  | Some (s, _) => map pr_nsent (pr_infl s) = [3] /\ forallb (pr_abandoned s) (pr_infl s) = true
+  | Some (s, _) => map pr_nsent (pr_infl s) = [2] /\ forallb (pr_abandoned s) (pr_infl s) = true /\ map pr_rtx (pr_infl s) = [false]
   | None => False
   end.
-Proof. split; [apply pr_run_wholeb_sound; vm_compute; reflexivity | vm_compute; split; reflexivity]. Qed.
+Proof. split; [apply pr_run_wholeb_sound; vm_compute; reflexivity | vm_compute; repeat split; reflexivity]. Qed.
 
 (* Finding D21 (sim-C06-rexmit-limit-exceeded-fragmented-message), model level: without the side condition the
    statement is false.  Limit 0, a two-fragment message whose second fragment is still in the pending queue
@@ -68,12 +69,13 @@ Example c06_nsent_bound_refuted :
   end.
 Proof. split; [vm_compute; reflexivity | vm_compute; repeat split; reflexivity]. Qed.
 
-(* abandoned chunks are never marked (by RACK / PTO: refused; by T3: a chunk of an abandoned message carries the
-   retransmit flag after markAllToRetrasmit only if one did before) and never fast-retransmitted; the
+(* abandoned chunks are never selected and never put on the wire again: marking (RACK / PTO) and fast retransmission
+   refuse them, a gather does not retransmit them even if their retransmit mark is still set (fix 3b069d1, finding D30),
+   and after markAllToRetrasmit a chunk of an abandoned message carries the mark only if one did before; the
    correspondence check verifies these constraints on every observed step (a refused step is a mismatch) *)
 Theorem c06_abandoned_not_marked : forall s t c,
   pr_get (pr_infl s) t = Some c -> pr_abandoned s c = true ->
-  pr_mark s t = None /\ (forall now, pr_fast_retransmit s t now = None) /\
+  pr_mark s t = None /\ (forall now, pr_fast_retransmit s t now = None) /\ (forall now, pr_retransmit s t now = None) /\
   (forall c', In c' (pr_infl (pr_mark_all_rtx s)) -> pr_msg c' = pr_msg c -> pr_rtx c' = true ->
      exists c0, In c0 (pr_infl s) /\ pr_rtx c0 = true /\ pr_msg c0 = pr_msg c).
 Proof. exact pr_abandoned_not_marked_thm. Qed.
@@ -94,26 +96,18 @@ Proof. exact pr_late_tx_abandons_thm. Qed.
 Print Assumptions c06_late_transmission_abandons.
 
 (* Stream sid has the lifetime policy L.  Follow any chunk of the stream (not DCEP) that is in flight at position
-   p0, through any history (pr_track moves the position when SACKs pop chunks in front of it).  If loss recovery
-   selects chunks only while the messages of the stream are entirely in flight, and a chunk whose retransmit flag
-   is already set is not also fast-retransmitted (pr_lt_side ... true), then at most ONE (re)transmission of the
-   chunk happens at a time >= firstSent + L. *)
+   p0 (if it is marked for retransmission, its message is entirely in flight), through any history (pr_track moves
+   the position when SACKs pop chunks in front of it).  If loss recovery selects chunks only while the messages of
+   the stream are entirely in flight (pr_lt_side), then at most ONE (re)transmission of the chunk happens at a time
+   >= firstSent + L: the one at which the status check abandons the message. *)
 Theorem c06_lifetime : forall sid L evs s0 p0 c,
   pr_timed_stream s0 sid L -> pr_ent s0 ->
   nth_error (pr_infl s0) p0 = Some c -> pr_sid c = sid -> pr_dcep c = false ->
-  pr_run_ok (pr_lt_side sid true) s0 evs ->
+  (pr_rtx c = true -> pr_msg_allinfl (pr_msgs s0) (pr_msg c) = true) ->
+  pr_run_ok (pr_lt_side sid) s0 evs ->
   (pr_count_late L p0 s0 evs <= 1)%nat.
 Proof. exact pr_lifetime_thm. Qed.
 Print Assumptions c06_lifetime.
-
-(* without the second side condition: at most two *)
-Theorem c06_lifetime_two : forall sid L evs s0 p0 c,
-  pr_timed_stream s0 sid L -> pr_ent s0 ->
-  nth_error (pr_infl s0) p0 = Some c -> pr_sid c = sid -> pr_dcep c = false ->
-  pr_run_ok (pr_lt_side sid false) s0 evs ->
-  (pr_count_late L p0 s0 evs <= 2)%nat.
-Proof. exact pr_lifetime_weak_thm. Qed.
-Print Assumptions c06_lifetime_two.
 
 (* the hypotheses are satisfiable: lifetime 500 ms, T3 at 1 s retransmits (that transmission abandons the
    message), a second T3 marks nothing: one late transmission *)
@@ -121,7 +115,7 @@ Example c06_lifetime_example :
   let s0 := pr_init 100 [(5, (c_ReliabilityTypeTimed, 500))] true false in
   let c := mkPrChunk 100 5 0 0 false true true 1 false 0 false false 0 in
   let evs := [PrSend c 0; PrT3; PrRtx 100 1000000000; PrGather; PrT3; PrGather] in
-  pr_run_ok (pr_lt_side 5 true) s0 evs /\ pr_count_late 500 0 s0 evs = 1%nat /\
+  pr_run_ok (pr_lt_side 5) s0 evs /\ pr_count_late 500 0 s0 evs = 1%nat /\
   match pr_run s0 evs with
   | Some (s2, outs) => map pr_nsent (pr_infl s2) = [2] /\ outs = [PrOutFwd 100 [(5, 0)]]
   | None => False
@@ -131,29 +125,37 @@ Proof.
   split; [vm_compute; reflexivity|]. vm_compute. split; reflexivity.
 Qed.
 
-(* the second side condition is needed (model-level refutation of "at most one" without it): lifetime 100 ms;
-   the chunk is marked (T3 / RACK / PTO) but its retransmission is held back by the window; three miss
-   indications fast-retransmit it at 200 ms (late, the message is abandoned), and the still pending retransmit
-   flag retransmits it again at 300 ms: two transmissions after the lifetime expired. *)
-Example c06_lifetime_marked_and_fast_refuted :
+(* Finding D30 (sim-C06-lifetime-exceeded-abandoned-chunk-retransmitted), fixed by 3b069d1.  Before the fix
+   getDataPacketsToRetransmit tested only the retransmit mark: lifetime 100 ms; the chunk is marked (T3 / RACK / PTO)
+   but its retransmission is held back by the window; three miss indications fast-retransmit it at 200 ms (late, the
+   message is abandoned; the fast path leaves the mark set), and the next gather retransmitted the abandoned chunk
+   again at 300 ms: two transmissions after the lifetime expired (pre-fix history: Send; Mark; Frtx @200 ms; Rtx @300 ms,
+   observed on the real code, notes/C06.md).  Now the last step is refused, the gather clears the mark instead, and
+   exactly one late transmission remains. *)
+Example c06_d30_history_now_refused :
   let s0 := pr_init 100 [(5, (c_ReliabilityTypeTimed, 100))] true false in
   let c := mkPrChunk 100 5 0 0 false true true 1 false 0 false false 0 in
-  let evs := [PrSend c 0; PrMark 100; PrFrtx 100 200000000; PrRtx 100 300000000] in
-  pr_run_ok (pr_lt_side 5 false) s0 evs /\ pr_run_okb (pr_lt_sideb 5 true) s0 evs = false /\
-  pr_count_late 100 0 s0 evs = 2%nat.
+  let pre := [PrSend c 0; PrMark 100; PrFrtx 100 200000000] in
+  pr_run s0 (pre ++ [PrRtx 100 300000000]) = None /\
+  pr_run_ok (pr_lt_side 5) s0 (pre ++ [PrUnmark 100; PrGather]) /\
+  pr_count_late 100 0 s0 (pre ++ [PrUnmark 100; PrGather]) = 1%nat /\
+  match pr_run s0 (pre ++ [PrUnmark 100; PrGather]) with
+  | Some (s, _) => map pr_nsent (pr_infl s) = [2] /\ map pr_rtx (pr_infl s) = [false] /\ forallb (pr_abandoned s) (pr_infl s) = true
+  | None => False
+  end.
 Proof.
-  split; [apply pr_lt_sideb_sound; vm_compute; reflexivity|].
-  split; vm_compute; reflexivity.
+  split; [vm_compute; reflexivity|]. split; [apply pr_lt_sideb_sound; vm_compute; reflexivity|].
+  split; [vm_compute; reflexivity|]. vm_compute. repeat split; reflexivity.
 Qed.
 
-(* Finding D21 (sim-C06-lifetime-not-enforced-fragmented-message), model level: without the first side condition
-   both bounds fail.  Lifetime 100 ms, first fragment of a message whose tail is still pending: every T3 marks it
+(* Finding D21 (sim-C06-lifetime-not-enforced-fragmented-message), model level: without the side condition
+   the bound fails.  Lifetime 100 ms, first fragment of a message whose tail is still pending: every T3 marks it
    again (it is not abandoned() while _allInflight is unset) and every gather retransmits it. *)
 Example c06_lifetime_refuted :
   let s0 := pr_init 100 [(5, (c_ReliabilityTypeTimed, 100))] true false in
   let f1 := mkPrChunk 100 5 0 0 false true false 1 false 0 false false 0 in
   let evs := [PrSend f1 0; PrT3; PrRtx 100 1000000000; PrT3; PrRtx 100 3000000000; PrT3; PrRtx 100 7000000000] in
-  pr_run_okb (pr_lt_sideb 5 false) s0 evs = false /\ pr_count_late 100 0 s0 evs = 3%nat.
+  pr_run_okb (pr_whole_sideb 5) s0 evs = false /\ pr_count_late 100 0 s0 evs = 3%nat.
 Proof. split; vm_compute; reflexivity. Qed.
 
 (* ---------------------------------------------------------------- (f) DCEP *)
